@@ -18,8 +18,29 @@ SAMPLED (seeded)
     label kinds: 0..N-1, 1..N, random (also negative) ints, strings, floats; isolated nodes added before and
     after the hyperedges; 40 % weighted; one in five is uniform on 0..N-1 (tensor).  300 quick / 3000 thorough.
   * random temporal hypergraphs on <= 6 nodes, <= 7 (time, hyperedge) pairs, times in 0..4.  100 / 1000.
-EDITED OBJECTS: every 7th exhaustive and every 2nd random static input once more, with the object queried once (mapping, incidence,
-  adjacency), edited (remove_node with / without keep_edges, remove_edge, add_edge with a new node) and only then checked.
+EDITED OBJECTS (query -> edit -> check on the SAME object; the unedited input is a case of its own).  The query before
+  the edit is get_mapping() plus the complete set of calls that is checked afterwards (every function, every order, both
+  keep_isolated_nodes values, return_mapping True and False), so that whatever the library may keep from a call (a fitted
+  encoder, a matrix, a snapshot) exists when the edit happens; nothing is reported from that query.
+  * size-changing edits: every 10th exhaustive and every 3rd random static input, edited by remove_node with / without
+    keep_edges, remove_edge, or add_edge with a new node.
+  * SIZE-PRESERVING edits: every 17th exhaustive and every 3rd random static input (others than the ones above), edited so
+    that the number of nodes and / or of hyperedges is what it was at the query while the content differs; kinds in turn:
+      swap_node             remove_node(x, keep_edges=F/T); add_node(y), y a new label (isolated)       - node count kept
+      relabel_node          remove_node(x); each hyperedge of x added again with y for x              - node, hyperedge and
+                            per-order counts kept, y is not isolated
+      readd_node            remove_node(x, keep_edges=F/T); add_node(x)   - same node set (labels 0..N-1 stay 0..N-1, so the
+                            degree / Laplacian / tensor clauses are reached), other get_nodes() order
+      swap_edge_same_size   remove_edge(e); add_edge(e') with |e'| = |e|, e' new, on the existing nodes - all counts kept
+      swap_edge_other_size  the same with |e'| != |e|                                   - counts kept, per-order counts change
+      reinsert_edge         remove_edge(e); add_edge(e)   - same content, e moves to the end of get_edges() (columns move)
+      reweight              weighted inputs: set_weight(e, w') or add_edge(e, weight=w') (accumulates)  - only a weight changes
+    y sorts before, between or after the existing labels and is of their kind (int / float / str).
+  * every 23rd exhaustive and every 2nd random temporal input, queried in the same way (all temporal calls), then edited
+    by swap_edge (remove_edge(e,t); add_edge(e',t)), move_edge (remove_edge(e,t); add_edge(e,t')), swap_node,
+    relabel_node or reinsert_edge, which keep the number of nodes / of (time, hyperedge) pairs.
+  What the edit did is read back through get_nodes() / get_edges() and counted ("edited inputs: node count unchanged, node
+  set changed", ...).  An edit that the library rejects with an exception is skipped and counted (C09 says nothing about edits).
 ONE STRESS INPUT (outside the <= 7 node scope, deterministic): 10 nodes, the 256 hyperedges {0,1} u S for
   every S c {2..9}: nodes 0 and 1 share 256 hyperedges (adjacency_matrix only).
 
@@ -53,6 +74,8 @@ Oracle: plain Python loops over h.get_nodes() / h.get_edges() / h.get_weight() (
 
 Known limits
   * Bounded, not a proof.  Counts >= 256 are only exercised by the single stress input.
+  * Edited objects: one edit (one call, or one remove+add group) after one complete query; longer histories of
+    edits and queries are not explored, and the edit kinds are sampled in turn, not crossed with every input.
   * laplacian_matrix_by_order returns no mapping; its rows are read under the mapping that
     adjacency_matrix_by_order returns for the same order (the statement equates the two matrices).
   * incidence_matrices_all_orders returns no mapping at all (it drops it) and is therefore not checked;
@@ -280,7 +303,13 @@ class _Run:
 
 # ----------------------------------------------------------------------------------------------- static
 def build_hg(spec):
+    return _build_hg(spec)[0]
+
+
+def _build_hg(spec):
+    """-> (the object, None) or, for an edited input, (the object, (nodes, hyperedges) before the edit)."""
     _, _, Hypergraph, _ = _lib()
+    before = None
     h = Hypergraph(weighted=bool(spec["weighted"]))
     for n in spec.get("pre_nodes", []):
         h.add_node(n)
@@ -293,32 +322,79 @@ def build_hg(spec):
     for n in spec.get("post_nodes", []):
         h.add_node(n)
     if spec.get("then"):
-        # the same object is queried, edited and queried again: a representation computed before the edit must not survive it
-        _, L, _, _ = _lib()
+        # the same object is queried, edited and queried again: a representation (encoder, matrix, snapshot) computed
+        # before the edit must not survive it.  The query is the complete set of calls that is checked afterwards (same
+        # functions, same orders, same flags), evaluated into a recorder that is thrown away: the unedited input is a
+        # case of its own.
         with warnings.catch_warnings():
             warnings.simplefilter("ignore")
             try:
                 h.get_mapping()
-                L.binary_incidence_matrix(h, return_mapping=True)
-                L.adjacency_matrix(h, return_mapping=True)
             except Exception:
                 pass
-            for op in spec["then"]:
-                if op[0] == "rm_node":
-                    h.remove_node(op[1], keep_edges=bool(op[2]))
-                elif op[0] == "rm_edge":
-                    h.remove_edge(tuple(op[1]))
-                elif op[0] == "add_edge":
-                    h.add_edge(tuple(op[1]))
-                elif op[0] == "add_node":
-                    h.add_node(op[1])
-    return h
+        before = (list(h.get_nodes()), [tuple(e) for e in h.get_edges()])
+        before += ({e: h.get_weight(e) for e in before[1]},)
+        _check_hg_object(Rec(), spec, h, register=False)
+        try:
+            with warnings.catch_warnings():
+                warnings.simplefilter("ignore")
+                for op in spec["then"]:
+                    if op[0] == "rm_node":
+                        h.remove_node(op[1], keep_edges=bool(op[2]))
+                    elif op[0] == "rm_edge":
+                        h.remove_edge(tuple(op[1]))
+                    elif op[0] == "add_edge":
+                        if len(op) > 2 and op[2] is not None:
+                            h.add_edge(tuple(op[1]), weight=op[2])
+                        else:
+                            h.add_edge(tuple(op[1]))
+                    elif op[0] == "add_node":
+                        h.add_node(op[1])
+                    elif op[0] == "set_weight":
+                        h.set_weight(tuple(op[1]), op[2])
+                    else:
+                        raise AssertionError(f"unknown edit {op!r}")
+        except AssertionError:
+            raise
+        except Exception as ex:  # an edit the library rejects: the statement of C09 says nothing about edits
+            raise EditRejected(f"{type(ex).__name__}: {ex}")
+    return h, before
+
+
+class EditRejected(Exception):
+    pass
+
+
+def _count_edit(rec, before, nodes, edges, wts):
+    """Counters that say what the edit did to the sizes (evidence that size-preserving edits are really explored)."""
+    n0, e0, w0 = before
+    same_n, same_e = len(n0) == len(nodes), len(e0) == len(edges)
+    rec.count("edited inputs")
+    if same_n and set(n0) != set(nodes):
+        rec.count("edited inputs: node count unchanged, node set changed")
+    if same_e and set(e0) != set(edges):
+        rec.count("edited inputs: hyperedge count unchanged, hyperedge set changed")
+    if same_n and same_e and (set(n0) != set(nodes) or set(e0) != set(edges)):
+        rec.count("edited inputs: both counts unchanged, content changed")
+    if set(n0) == set(nodes) and set(e0) == set(edges) and (n0 != list(nodes) or e0 != list(edges)):
+        rec.count("edited inputs: same nodes and hyperedges, get_nodes()/get_edges() order changed")
+    if set(e0) == set(edges) and any(w0[e] != w for e, w in zip(edges, wts)):
+        rec.count("edited inputs: same hyperedges, a weight changed")
 
 
 def check_hg(rec, spec):
+    try:
+        h, before = _build_hg(spec)
+    except EditRejected:
+        rec.case(spec, nontrivial=False)
+        rec.count("edited inputs skipped (the library rejected the edit)")
+        return
+    _check_hg_object(rec, spec, h, before=before)
+
+
+def _check_hg_object(rec, spec, h, register=True, before=None):
     np, L, _, _ = _lib()
     run = _Run(rec, spec)
-    h = build_hg(spec)
     # ---- the abstract value of the input, read through the public API
     nodes = list(h.get_nodes())
     edges = [tuple(e) for e in h.get_edges()]
@@ -328,7 +404,10 @@ def check_hg(rec, spec):
     nodeset = set(nodes)
     N, E = len(nodes), len(edges)
     run.set_nodes(nodes)
-    rec.case(spec, nontrivial=E >= 1)
+    if register:  # (not for the query that precedes an edit: its recorder is thrown away)
+        rec.case(spec, nontrivial=E >= 1)
+        if before is not None:
+            _count_edit(rec, before, nodes, edges, wts)
     rec.count("hypergraphs")
     if weighted:
         rec.count("hypergraphs weighted")
@@ -535,7 +614,12 @@ def check_stress(rec, spec):
 
 # ----------------------------------------------------------------------------------------------- temporal
 def build_temporal(spec):
+    return _build_temporal(spec)[0]
+
+
+def _build_temporal(spec):
     _, _, _, TemporalHypergraph = _lib()
+    before = None
     th = TemporalHypergraph(weighted=bool(spec["weighted"]))
     for n in spec.get("pre_nodes", []):
         th.add_node(n)
@@ -545,19 +629,65 @@ def build_temporal(spec):
             th.add_edge(tuple(e), int(t), weight=ws[k])
         else:
             th.add_edge(tuple(e), int(t))
-    return th
+    if spec.get("then"):
+        # query (the complete set of calls that is checked afterwards, into a recorder that is thrown away), edit, and
+        # only then check: nothing computed before the edit may survive it
+        before = (list(th.get_nodes()), [(t, tuple(e)) for t, e in th.get_edges()])
+        _check_temporal_object(Rec(), spec, th, register=False)
+        try:
+            with warnings.catch_warnings():
+                warnings.simplefilter("ignore")
+                for op in spec["then"]:
+                    if op[0] == "rm_node":
+                        th.remove_node(op[1], keep_edges=bool(op[2]))
+                    elif op[0] == "add_node":
+                        th.add_node(op[1])
+                    elif op[0] == "rm_edge":
+                        th.remove_edge(tuple(op[2]), int(op[1]))
+                    elif op[0] == "add_edge":
+                        if len(op) > 3 and op[3] is not None:
+                            th.add_edge(tuple(op[2]), int(op[1]), weight=op[3])
+                        else:
+                            th.add_edge(tuple(op[2]), int(op[1]))
+                    else:
+                        raise AssertionError(f"unknown edit {op!r}")
+        except AssertionError:
+            raise
+        except Exception as ex:  # an edit the library rejects: the statement of C09 says nothing about edits
+            raise EditRejected(f"{type(ex).__name__}: {ex}")
+    return th, before
 
 
 def check_temporal(rec, spec):
+    try:
+        th, before = _build_temporal(spec)
+    except EditRejected:
+        rec.case(spec, nontrivial=False)
+        rec.count("edited inputs skipped (the library rejected the edit)")
+        return
+    _check_temporal_object(rec, spec, th, before=before)
+
+
+def _check_temporal_object(rec, spec, th, register=True, before=None):
     _, L, _, _ = _lib()
     run = _Run(rec, spec)
-    th = build_temporal(spec)
     nodeset = set(th.get_nodes())
     run.set_nodes(nodeset)
     tedges = [(t, frozenset(e)) for t, e in th.get_edges()]
     weighted = bool(th.is_weighted())
     times = sorted({t for t, _ in tedges})
-    rec.case(spec, nontrivial=len(tedges) >= 1)
+    if register:
+        rec.case(spec, nontrivial=len(tedges) >= 1)
+        if before is not None:
+            n0, e0 = before
+            e0 = [(t, frozenset(e)) for t, e in e0]
+            rec.count("edited temporal inputs")
+            if len(n0) == len(nodeset) and set(n0) != nodeset:
+                rec.count("edited temporal inputs: node count unchanged, node set changed")
+            if len(e0) == len(tedges) and set(e0) != set(tedges):
+                rec.count("edited temporal inputs: number of (time, hyperedge) pairs unchanged, pairs changed")
+            if set(n0) == nodeset and set(e0) == set(tedges) and e0 != tedges:
+                rec.count("edited temporal inputs: same content, get_edges() order changed")
     rec.count("temporal hypergraphs")
     if len(times) > 1:
         rec.count("temporal hypergraphs with >= 2 times")
@@ -713,6 +843,151 @@ def edited_specs(rng, specs, every=3):
         yield dict(sp, then=then)
 
 
+def _spec_nodes(sp):
+    es = [e for e in sp["edges"]] if sp.get("kind") == "hg" else [e for _, e in sp["edges"]]
+    return sorted({a for e in es for a in e} | set(sp.get("pre_nodes", [])) | set(sp.get("post_nodes", [])), key=repr)
+
+
+def _fresh_label(rng, nodes):
+    """A label of the same kind as `nodes` (str / int / float) that is none of them, placed before, between or after
+    them in sorted order."""
+    if all(isinstance(a, str) for a in nodes):
+        return rng.choice([c for c in ("", "0_new", "M_new", "b_new", "zz_new", "~new") if c not in nodes])
+    s = sorted(nodes)
+    ints = all(type(a) is int for a in s)
+    where = rng.choice(["before", "after", "between", "between"])
+    if where == "between":
+        gaps = [(a, b) for a, b in zip(s, s[1:]) if (b - a > 1 if ints else b > a)]
+        if gaps:
+            a, b = rng.choice(gaps)
+            return rng.randint(a + 1, b - 1) if ints else (a + b) / 2
+        where = rng.choice(["before", "after"])
+    return s[0] - 1 if where == "before" else s[-1] + 1
+
+
+def _other_edges(nodes, present, sizes):
+    """Every node subset of one of the given sizes that is not a hyperedge yet (deterministic order)."""
+    have = {frozenset(e) for e in present}
+    return [list(c) for k in sizes for c in itertools.combinations(nodes, k) if frozenset(c) not in have]
+
+
+PRESERVING_KINDS = ("swap_node", "relabel_node", "readd_node", "swap_edge_same_size", "swap_edge_other_size",
+                    "reinsert_edge", "reweight")
+
+
+def preserving_specs(rng, specs, every=1, offset=0):
+    """Variants of the given static inputs in which the object is queried, then edited by a pair (or a few pairs) of calls
+    that leaves the NUMBER of nodes and / or of hyperedges as it was while the content changes, and only then checked.
+    Kinds, taken in turn:
+      swap_node            remove_node(x, keep_edges=False/True); add_node(y), y a new label        (node count kept)
+      relabel_node         remove_node(x); every hyperedge of x added again with y in place of x   (both counts and every
+                           per-order count kept, the new node is NOT isolated)
+      readd_node           remove_node(x, keep_edges=False/True); add_node(x)                       (same node set, get_nodes() order
+                           changes; labels 0..N-1 stay 0..N-1)
+      swap_edge_same_size  remove_edge(e); add_edge(e'), |e'| = |e|, e' new, on the existing nodes  (all counts kept)
+      swap_edge_other_size the same with |e'| != |e|                                              (counts kept, per-order counts change)
+      reinsert_edge        remove_edge(e); add_edge(e)         (same content, e moves to the end of get_edges(): columns move)
+      reweight             weighted: set_weight(e, w') or add_edge(e, weight=w') (the weight accumulates); unweighted inputs
+                           take swap_edge_same_size instead
+    A kind that is impossible on an input (no free subset, ...) falls through to the next one."""
+    j = 0
+    for i, sp in enumerate(specs):
+        if i % every != offset or sp.get("kind") != "hg" or not sp["edges"]:
+            continue
+        nodes = _spec_nodes(sp)
+        edges = [list(e) for e in sp["edges"]]
+        wt = (lambda k: sp["weights"][k]) if sp["weighted"] else (lambda k: None)
+        start = j % len(PRESERVING_KINDS)
+        j += 1
+        then = None
+        for step in range(len(PRESERVING_KINDS)):
+            kind = PRESERVING_KINDS[(start + step) % len(PRESERVING_KINDS)]
+            if kind == "reweight" and not sp["weighted"]:
+                kind = "swap_edge_same_size"
+            if kind == "swap_node":
+                then = [["rm_node", rng.choice(nodes), rng.randint(0, 1)], ["add_node", _fresh_label(rng, nodes)]]
+            elif kind == "relabel_node":
+                x = rng.choice(sorted({a for e in edges for a in e}, key=repr))
+                y = _fresh_label(rng, nodes)
+                then = [["rm_node", x, 0]] + [["add_edge", [y if a == x else a for a in e], wt(k)]
+                                              for k, e in enumerate(edges) if x in e]
+            elif kind == "readd_node":
+                x = rng.choice(nodes)
+                then = [["rm_node", x, rng.randint(0, 1)], ["add_node", x]]
+            elif kind in ("swap_edge_same_size", "swap_edge_other_size"):
+                k = rng.randrange(len(edges))
+                size = len(edges[k])
+                sizes = [size] if kind == "swap_edge_same_size" else [z for z in range(1, min(5, len(nodes)) + 1) if z != size]
+                free = _other_edges(nodes, edges, sizes)
+                if not free:
+                    continue
+                e2 = rng.choice(free)
+                rng.shuffle(e2)
+                then = [["rm_edge", edges[k]], ["add_edge", e2, wt(k)]]
+            elif kind == "reinsert_edge":
+                if len(edges) < 2:
+                    continue
+                k = rng.randrange(len(edges) - 1)  # not the last one: the order of get_edges() has to change
+                then = [["rm_edge", edges[k]], ["add_edge", edges[k], wt(k)]]
+            elif kind == "reweight":
+                k = rng.randrange(len(edges))
+                w2 = rng.choice([w for w in (0.25, 1.5, 4, 9) if w != wt(k)])
+                then = [["set_weight", edges[k], w2]] if rng.random() < 0.5 else [["add_edge", edges[k], w2]]
+            if then:
+                yield dict(sp, then=then, edit=kind)
+                break
+
+
+PRESERVING_TEMPORAL_KINDS = ("swap_edge", "move_edge", "swap_node", "relabel_node", "reinsert_edge")
+
+
+def preserving_temporal_specs(rng, specs, every=1, offset=0):
+    """The same for temporal inputs: query, edit without changing the number of nodes / of (time, hyperedge) pairs, check.
+      swap_edge      remove_edge(e, t); add_edge(e', t), e' not present at t, on the existing nodes
+      move_edge      remove_edge(e, t); add_edge(e, t'), t' != t (a time in use or a new one)
+      swap_node      remove_node(x, keep_edges=False); add_node(y), y a new label
+      relabel_node   remove_node(x); every (t, hyperedge) of x added again with y in place of x
+      reinsert_edge  remove_edge(e, t); add_edge(e, t)  (same content, other position in get_edges())"""
+    j = 0
+    for i, sp in enumerate(specs):
+        if i % every != offset or sp.get("kind") != "temporal" or not sp["edges"]:
+            continue
+        nodes = _spec_nodes(sp)
+        edges = [[t, list(e)] for t, e in sp["edges"]]
+        wt = (lambda k: sp["weights"][k]) if sp["weighted"] else (lambda k: None)
+        start = j % len(PRESERVING_TEMPORAL_KINDS)
+        j += 1
+        then = None
+        for step in range(len(PRESERVING_TEMPORAL_KINDS)):
+            kind = PRESERVING_TEMPORAL_KINDS[(start + step) % len(PRESERVING_TEMPORAL_KINDS)]
+            k = rng.randrange(len(edges))
+            t, e = edges[k]
+            if kind == "swap_edge":
+                free = _other_edges(nodes, [f for tt, f in edges if tt == t], range(1, min(5, len(nodes)) + 1))
+                if not free:
+                    continue
+                then = [["rm_edge", t, e], ["add_edge", t, rng.choice(free), wt(k)]]
+            elif kind == "move_edge":
+                free = [t2 for t2 in range(0, 6) if t2 != t and not any(tt == t2 and set(f) == set(e) for tt, f in edges)]
+                then = [["rm_edge", t, e], ["add_edge", rng.choice(free), e, wt(k)]]
+            elif kind == "swap_node":
+                then = [["rm_node", rng.choice(nodes), 0], ["add_node", _fresh_label(rng, nodes)]]
+            elif kind == "relabel_node":
+                x = rng.choice(e)
+                y = _fresh_label(rng, nodes)
+                then = [["rm_node", x, 0]] + [["add_edge", tt, [y if a == x else a for a in f], wt(q)]
+                                              for q, (tt, f) in enumerate(edges) if x in f]
+            elif kind == "reinsert_edge":
+                if len(edges) < 2:
+                    continue
+                k = rng.randrange(len(edges) - 1)
+                t, e = edges[k]
+                then = [["rm_edge", t, e], ["add_edge", t, e, wt(k)]]
+            if then:
+                yield dict(sp, then=then, edit=kind)
+                break
+
+
 def random_temporal_specs(rng, n):
     for _ in range(n):
         N = rng.choice([3, 4, 5, 6])
@@ -758,11 +1033,25 @@ def run(ctx):
     ext = list(exhaustive_temporal_specs(tn))
     rnd = list(random_specs(ctx.rng, n_rand))
     rndt = list(random_temporal_specs(ctx.rng, n_rand_t))
-    edited = list(edited_specs(ctx.rng, ex, every=7)) + list(edited_specs(ctx.rng, rnd, every=2))
-    specs = ex + ext + [STRESS] + rnd + rndt + edited
-    ctx.count("inputs queried, edited and queried again", len(edited))
-    ctx.rule("edited inputs: every 7th exhaustive and every 2nd random static input once more with the object queried (mapping, incidence, "
-             "adjacency), then edited (remove_node with / without keep_edges, remove_edge, add_edge with a new node) and only then checked")
+    edited = list(edited_specs(ctx.rng, ex, every=10)) + list(edited_specs(ctx.rng, rnd, every=3))
+    # (generated after everything else so that the inputs above do not depend on them)
+    kept = list(preserving_specs(ctx.rng, ex, every=17, offset=3)) + list(preserving_specs(ctx.rng, rnd, every=3, offset=1))
+    keptt = (list(preserving_temporal_specs(ctx.rng, ext, every=23, offset=5)) +
+             list(preserving_temporal_specs(ctx.rng, rndt, every=2, offset=1)))
+    specs = ex + ext + [STRESS] + rnd + rndt + edited + kept + keptt
+    ctx.count("inputs queried, edited and queried again", len(edited) + len(kept) + len(keptt))
+    ctx.count("inputs queried, edited by a size-preserving edit and queried again (static)", len(kept))
+    ctx.count("inputs queried, edited by a size-preserving edit and queried again (temporal)", len(keptt))
+    ctx.rule("edited inputs: every 10th exhaustive and every 3rd random static input once more with the object queried (get_mapping and "
+             "every call that is checked afterwards), then edited (remove_node with / without keep_edges, remove_edge, add_edge with a "
+             "new node) and only then checked")
+    ctx.rule("size-preserving edits: every 17th exhaustive and every 3rd random static input (others than the ones above) once more, queried in the same way, then edited "
+             "so that the number of nodes and / or hyperedges is what it was while the content differs (" + ", ".join(PRESERVING_KINDS) +
+             ": remove_node(x)+add_node(y), x replaced by a new label y in its hyperedges, remove_node(x)+add_node(x), remove_edge(e)+"
+             "add_edge(e') of the same / another size, remove_edge(e)+add_edge(e), set_weight / accumulating add_edge), then checked "
+             "on the same object; every 23rd exhaustive and every 2nd random temporal input likewise (" +
+             ", ".join(PRESERVING_TEMPORAL_KINDS) + "). The new label sorts before, between or after the old ones. An edit that the "
+             "library rejects with an exception is skipped (degenerate case)")
     ctx.count("exhaustive static inputs", len(ex))
     ctx.count("exhaustive temporal inputs", len(ext))
     ctx.count("random static inputs", len(rnd))
